@@ -1,4 +1,74 @@
-import LabreaModel.Eval
+/-
+  C08 — pre-set options override, defaults yield, sections merge.
+
+  (The clause "inputs are never mutated" is not a theorem about an immutable model: it is decided by
+  deep snapshots of every input dictionary around every operation in the correspondence runs.)
+-/
+import LabreaModel.MonadLemmas
+import LabreaModel.MixLemmas
 namespace Labrea
-theorem c08_placeholder : True := trivial
+
+variable (run : Run) (o : V)
+
+/-- **with_options_overlay.** Evaluating / validating `X` with pre-set options `P` under `o` IS evaluating /
+    validating `X` under `o` overlaid by `P` (`P` wins). -/
+theorem with_options_overlay (x : Expr) (p : V) (op : Op) (h : op = .evaluate ∨ op = .validate) :
+    withOptionsOp run x p true op o = run op x (mix o p) := by
+  rcases h with h | h <;> subst h <;> rfl
+
+/-- **with_default_overlay.** With default options `D`: `X` under `D` overlaid by `o` (`o` wins). -/
+theorem with_default_overlay (x : Expr) (d : V) (op : Op) (h : op = .evaluate ∨ op = .validate) :
+    withOptionsOp run x d false op o = run op x (mix d o) := by
+  rcases h with h | h <;> subst h <;> rfl
+
+/-- nesting composes: the inner wrapper sees the options the outer one produced -/
+theorem with_options_nested (env : Env) (n i1 i2 : Nat) (x : Expr) (p1 p2 : V) (f1 f2 : Bool)
+    (hrun : ∀ e o', run .evaluate e o' = nodeOp env run n .evaluate e o') :
+    nodeOp env run n .evaluate (.withOptions i1 (.withOptions i2 x p2 f2) p1 f1) o =
+      run .evaluate x (let o1 := if f1 then mix o p1 else mix p1 o; if f2 then mix o1 p2 else mix p2 o1) := by
+  simp only [nodeOp, withOptionsOp]
+  rw [hrun]
+  simp only [nodeOp, withOptionsOp]
+
+/-- the `options=` / `default_options=` arguments of a dataset, and `with_options` / `with_default_options`
+    (which only change those two fields of the record): the cached body runs under
+    `mix (mix D o) P` — defaults yield to the caller, pre-set options override both.  Callback, effects,
+    dispatch and cache are inside and do not matter. -/
+theorem dataset_options_overlay (env : Env) (n id ds : Nat)
+    (hrun : ∀ op e o', run op e o' = nodeOp env run n op e o') :
+    nodeOp env run n .evaluate (.dataset id ds) o =
+      let r := env.ds ds
+      let calculation := Expr.apply (tid id 1) (.overloaded (tid id 7) r.ov) r.callback
+      let base := if r.effectsDisabled then calculation else .computation (tid id 2) calculation r.effects
+      run .evaluate (.cached (tid id 4) (.logged (tid id 3) base r.msg) r.cache) (mix (mix r.defaultOptions o) r.options) := by
+  simp only [nodeOp]
+  rw [hrun]
+  simp only [nodeOp, withOptionsOp]
+  rw [hrun]
+  simp only [nodeOp, withOptionsOp, Bool.false_eq_true, if_false, if_true]
+
+/-- `mix` on two dictionaries: pre-set scalars / lists win -/
+theorem overlay_preset_wins (k : String) (p d : List (String × V)) (v : V) (hnd : (akeys p).Nodup)
+    (hv : alookup k p = some v) (hs : v.isDict = false) :
+    ∃ m, mix (.dict d) (.dict p) = .dict m ∧ alookup k m = some v :=
+  ⟨mixObj d p, rfl, mix_ingredient_scalar_wins k p d v hnd hv hs⟩
+
+/-- sections present on both sides are merged key by key (recursively) -/
+theorem overlay_sections_merge (k : String) (p d pv dv : List (String × V)) (hnd : (akeys p).Nodup)
+    (hp : alookup k p = some (.dict pv)) (hd : alookup k d = some (.dict dv)) :
+    ∃ m, mix (.dict d) (.dict p) = .dict m ∧ alookup k m = some (.dict (mixObj dv pv)) :=
+  ⟨mixObj d p, rfl, mix_sections_merge k p d pv dv hnd hp hd⟩
+
+/-- keys the overlay does not mention come from the other side unchanged -/
+theorem overlay_keeps_other (k : String) (p d : List (String × V)) (hnd : (akeys p).Nodup)
+    (hp : alookup k p = Option.none) :
+    ∃ m, mix (.dict d) (.dict p) = .dict m ∧ alookup k m = alookup k d :=
+  ⟨mixObj d p, rfl, mix_keeps_other k p d hnd hp⟩
+
+/-- the caller's sibling inside a pre-set section survives the overlay (the F5 situation) -/
+example : walk ["S", "Y"] (mix (.dict [("S", .dict [("Y", .int 2)])]) (.dict [("S", .dict [("X", .int 1)])])) = .found (.int 2) := by
+  decide +kernel
+example : walk ["S", "X"] (mix (.dict [("S", .dict [("Y", .int 2)])]) (.dict [("S", .dict [("X", .int 1)])])) = .found (.int 1) := by
+  decide +kernel
+
 end Labrea
